@@ -207,6 +207,19 @@ def run(tier):
                 bad += 1; ck.violation("function-missing:named-like-c-function", "the public function `%s` of the source is not defined under its name in the emitted IR" % cn, src + "\n" + ir[:3000])
         elif not f[0].startswith("err codes="):
             ck.violation(C.failure_key(f[0]), "compiler failed: " + f[0][:160], src)
+    tri = []
+    tmods = [("a.pn", "pub fn helper(x: i32) -> i32\n{\n\treturn: x + 1\n}\n"), ("b.pn", "pub fn helper(x: i32) -> i32\n{\n\treturn: x + 2\n}\npub fn only_in_b(x: i32) -> i32\n{\n\treturn: x * 2\n}\n"),
+             ("c.pn", "import \"b.pn\";\nfn main() -> i32\n{\n\treturn: only_in_b(21)\n}\n")]
+    import itertools as _it3
+    for oi, order in enumerate(_it3.permutations(tmods)):
+        tri.append(("tri%d" % oi, "".join("//// module %s\n%s" % m for m in order)))
+    timpl = C.run_harness("ir", tri, ck.work + "/tri", timeout=600)
+    for cid, src in tri:
+        f = timpl.get(cid, ["missing"])
+        if f[0].startswith("ok"):
+            ir = "".join(f[1:]).replace("\\n", "\n")
+            if not re.search(r"define [^\n]*@only_in_b\(", ir) or len(re.findall(r"define [^\n]*@helper\(", ir)) < 2:
+                bad += 1; ck.violation("function-missing:link-error-ignored", "two modules define `helper`; the compilation succeeds and the program lacks a definition the source has", src + "\n" + ir[-3000:])
     dimpl = C.run_harness("ir", dups, ck.work + "/dups", timeout=600)
     for cid, src in dups:
         f = dimpl.get(cid, ["missing"])
